@@ -62,6 +62,8 @@ def _mk_exc(kind, idx, opi=0):
         return TypeError("unsupported operand type(s) for +: 'int' and 'str'", idx, 'op%d' % opi)
     if kind == 'SystemExit':
         return SystemExit(3, opi)
+    if kind == 'KeyboardInterrupt':
+        return KeyboardInterrupt('raised by the task itself', idx)
     if kind == 'KeyError':
         return KeyError(idx, opi)
     raise AssertionError(kind)
@@ -156,6 +158,26 @@ class FalsyShared(list):
 
     def __deepcopy__(self, memo):
         return FalsyShared()
+
+
+class YieldingDict(dict):
+    """the pool's job cache with CPython's granularity made visible: a Python-level loop over values()/keys()/items() can be
+    preempted between two elements (copy() and single look-ups cannot); changing the size meanwhile raises RuntimeError as usual"""
+
+    def _walk(self, view):
+        for x in view:
+            yield x
+            if sim.S is not None and not sim.S.abort:
+                sim.S.yield_point('dict.iter')
+
+    def values(self):
+        return self._walk(dict.values(self))
+
+    def items(self):
+        return self._walk(dict.items(self))
+
+    def __deepcopy__(self, memo):
+        return self
 
 
 class InputBroken(Exception):
@@ -524,6 +546,11 @@ def _run(sc, S, obs):
     for rule in sc.get('rules', []):
         S.rules.append(_make_rule(rule))
     pool = WorkerPool(pc.pop('n_jobs', 2), shared_objects=shared_obj, **pc)
+    try:
+        if isinstance(pool._cache, dict) and type(pool._cache) is dict:
+            pool._cache = YieldingDict(pool._cache)
+    except Exception:  # noqa: the cache is a private attribute; without it only this refinement is lost
+        pass
     obs['sigint_handler_before'] = repr(S.mainproc.handlers.get(sim.SIGINT))
     import mpire.tqdm_utils as tu
     std_tqdm = tu.get_tqdm(None)
